@@ -144,6 +144,11 @@ def f_reducer(key, rows):
     return [key, sum(1 for _ in rows)]
 
 
+def f_keep(xs):
+    # returns the very object it was handed when that is a list
+    return xs if isinstance(xs, list) else list(xs)
+
+
 def f_groupmapper(key, rows):
     for r in rows:
         yield [key, len(r)]
@@ -1247,6 +1252,13 @@ V('selectop',
   lambda e, w: e.selectcontains(w.s[0], 'b', 'x', complement=True),
   lambda e, w: e.selecttrue(w.s[0], 'a', complement=True),
   lambda e, w: e.selectisinstance(w.s[0], 'd', (str, int), complement=True))
+# aggregation functions that keep what they are given (the group's rows, the
+# group's values): what they return becomes a cell of the output
+V('aggregate',
+  lambda e, w: e.aggregate(w.s[0], 'a', {'rows': f_keep, 'n': len}),
+  lambda e, w: e.aggregate(w.s[0], 'a', {'vals': ('c', f_keep)}),
+  lambda e, w: e.aggregate(w.s[0], 'a', f_keep),
+  lambda e, w: e.aggregate(w.s[0], 'a', f_keep, 'c'))
 # the two-argument form of unflatten on a plain, mutable list of values
 V('unflatten',
   lambda e, w: e.unflatten(w.arg(['p', 1, 'q', 2, 'r']), 2),
